@@ -504,6 +504,32 @@ type pDeterm struct {
 	DateOnly       bool `json:"dateOnlyDifference"`        // with the date comment enabled, two runs differ at most in that line
 }
 
+// interferenceRun: a run of the same engine whose configuration names template extension files
+func interferenceRun(dir string, engine string) error {
+	cfg, err := cmd.LoadGleeceConfig("gleece.config.json")
+	if err != nil {
+		return err
+	}
+	ext := filepath.Join(dir, "dist", "interfere", "ext.hbs")
+	os.MkdirAll(filepath.Dir(ext), 0o755)
+	if err := os.WriteFile(ext, []byte("// INTERFERENCE: text of ANOTHER run's extension file\n"), 0o644); err != nil {
+		return err
+	}
+	cfg.RoutesConfig.Engine = definitions.RoutingEngineType(engine)
+	cfg.RoutesConfig.SkipGenerateDateComment = true
+	cfg.RoutesConfig.OutputPath = filepath.Join(dir, "dist", "interfere", "gleece.go")
+	cfg.RoutesConfig.TemplateExtensions = map[string]string{"RegisterRoutesExtension": ext, "ImportsExtension": ext, "FunctionDeclarationsExtension": ext}
+	pipe, err := pipeline.NewGleecePipeline(cfg)
+	if err != nil {
+		return err
+	}
+	meta, err := pipe.Run()
+	if err != nil {
+		return err
+	}
+	return routes.GenerateRoutes(cfg, meta)
+}
+
 // fullRun: a brand-new session (config load, pipeline, routes, spec) returning the bytes it produced
 func fullRun(dir string, engine string, version string, skipDate bool) (routesBytes string, specBytes string, err error) {
 	cfg, err := cmd.LoadGleeceConfig("gleece.config.json")
@@ -834,6 +860,13 @@ func runProject(p pProject) (out projOut) {
 			rset[rb], s30[sb] = true, true
 			if _, sb31, err := fullRun(dir, eng, "3.1.0", true); err == nil {
 				s31[sb31] = true
+			}
+		}
+		// another project's generation in the same process (here: the same sources with a template extension
+		// file) must leave no trace in the next run's output
+		if err := interferenceRun(dir, eng); err == nil {
+			if rb, _, err := fullRun(dir, eng, "3.0.0", true); err == nil {
+				rset[rb] = true
 			}
 		}
 		d.RoutesDistinct, d.Spec30Distinct, d.Spec31Distinct = len(rset), len(s30), len(s31)
